@@ -76,12 +76,9 @@ class HandleMultilineImportContinuation:
 
 
 def skip_state(line, in_multi):
-    """New 'inside a parenthesised multi-line import' state after seeing the normalised line."""
-    if is_import(line) and "(" in line and ")" not in line:
-        return True
-    if in_multi:
-        return ")" not in line
-    return False
+    """New 'inside a parenthesised multi-line import' state after seeing the normalised line: switched on by an import
+    line with '(' and no ')', kept on until a line containing ')'. (One expression: spec functions with `if` fork.)"""
+    return (is_import(line) and "(" in line and ")" not in line) or (in_multi and ")" not in line)
 
 
 def skip_line(line, in_multi):
@@ -219,6 +216,7 @@ class TsNormalizeAndFilterLine:
         return implies(result[1] is not None, result[1] == norm(line) and len(result[1]) > 0)
 
 
+@opaque
 def track(pairs: SeqOf(NumLineT), in_multi: Bool) -> SeqOf(NumLineT):
     """Fold of _normalize_and_filter_line over (line number, raw line) pairs: kept lines keep their number."""
     if len(pairs) == 0:
@@ -240,7 +238,7 @@ class PyTokenizeWithLineNumbers:
                       if line_num not in docstring_lines], False)
 
     def inv0(non_docstring_lines, lines_with_numbers, in_multiline_import, rest):
-        return track(non_docstring_lines, False) == lines_with_numbers + track(rest, in_multiline_import)
+        return reveal(track, rest, in_multiline_import) and track(non_docstring_lines, False) == lines_with_numbers + track(rest, in_multiline_import)
 
 
 @contract(TA + "_tokenize_with_line_numbers", props=["C03"],
@@ -253,9 +251,10 @@ class TsTokenizeWithLineNumbers:
                       if line_num not in jsdoc_lines], False)
 
     def inv0(non_jsdoc_lines, lines_with_numbers, in_multiline_import, rest):
-        return track(non_jsdoc_lines, False) == lines_with_numbers + track(rest, in_multiline_import)
+        return reveal(track, rest, in_multiline_import) and track(non_jsdoc_lines, False) == lines_with_numbers + track(rest, in_multiline_import)
 
 
+@opaque
 def tracked(lines: SeqOf(Str), k: Int, skip: SeqOf(Int), in_multi: Bool) -> SeqOf(NumLineT):
     """Top-level description of line tracking: walk the raw lines numbered k, k+1, ...; drop numbers in `skip`
     (docstring / JSDoc lines), blank and comment-only lines and import lines; keep (number, normalised text)."""
@@ -271,40 +270,50 @@ def tracked(lines: SeqOf(Str), k: Int, skip: SeqOf(Int), in_multi: Bool) -> SeqO
 @lemma(props=["C03"], types=dict(lines=SeqOf(Str), k=Int, skip=SeqOf(Int), m=Bool), name="line-tracking-fusion")
 def tracking_fusion(lines, k, skip, m):
     """Pure: the code's pipeline (enumerate from k, filter by the skip set, fold) is the one-pass description."""
-    if len(lines) == 0:
-        return track([(n, x) for n, x in enumerate(lines, start=k) if n not in skip], m) == tracked(lines, k, skip, m)
-    ih(tracking_fusion, lines[1:], k + 1, skip, m)
-    ih(tracking_fusion, lines[1:], k + 1, skip, skip_state(norm(lines[0]), m))
-    return track([(n, x) for n, x in enumerate(lines, start=k) if n not in skip], m) == tracked(lines, k, skip, m)
+    reveal(tracked, lines, k, skip, m)
+    reveal(track, [(n, x) for n, x in enumerate(lines, start=k) if n not in skip], m)
+    return (len(lines) == 0 or (ih(tracking_fusion, lines[1:], k + 1, skip, m)
+                                and ih(tracking_fusion, lines[1:], k + 1, skip, skip_state(norm(lines[0]), m)))) and \
+        track([(n, x) for n, x in enumerate(lines, start=k) if n not in skip], m) == tracked(lines, k, skip, m)
 
 
-def tracked_ok(lines, k, skip, m, j):
-    """Element j of tracked(..): its number is an un-skipped line of the input, its text is that line's normalisation
-    (non-empty), and numbers are strictly increasing (order preserved, no line emitted twice)."""
-    r = tracked(lines, k, skip, m)
-    return implies(0 <= j and j < len(r),
-                   k <= r[j][0] and r[j][0] < k + len(lines) and r[j][1] == norm(lines[r[j][0] - k])
-                   and len(r[j][1]) > 0 and r[j][0] not in skip
-                   and implies(j + 1 < len(r), r[j][0] < r[j + 1][0]))
+def tracked_elem_ok(lines, k, skip, m, j):
+    """Element j of tracked(..): its number is an un-skipped line of the input and its text is that line's
+    (non-empty) normalisation."""
+    return implies(0 <= j and j < len(tracked(lines, k, skip, m)),
+                   k <= tracked(lines, k, skip, m)[j][0] and tracked(lines, k, skip, m)[j][0] < k + len(lines)
+                   and tracked(lines, k, skip, m)[j][1] == norm(lines[tracked(lines, k, skip, m)[j][0] - k])
+                   and len(tracked(lines, k, skip, m)[j][1]) > 0 and tracked(lines, k, skip, m)[j][0] not in skip)
 
 
 @lemma(props=["C03"], types=dict(lines=SeqOf(Str), k=Int, skip=SeqOf(Int), m=Bool, j=Int), name="tracked-lines-are-original")
 def tracked_lines(lines, k, skip, m, j):
-    if len(lines) == 0:
-        return tracked_ok(lines, k, skip, m, j)
-    ih(tracked_lines, lines[1:], k + 1, skip, m, j)
-    ih(tracked_lines, lines[1:], k + 1, skip, m, j - 1)
-    ih(tracked_lines, lines[1:], k + 1, skip, m, 0)
-    ih(tracked_lines, lines[1:], k + 1, skip, skip_state(norm(lines[0]), m), j)
-    ih(tracked_lines, lines[1:], k + 1, skip, skip_state(norm(lines[0]), m), j - 1)
-    ih(tracked_lines, lines[1:], k + 1, skip, skip_state(norm(lines[0]), m), 0)
-    return tracked_ok(lines, k, skip, m, j)
+    reveal(tracked, lines, k, skip, m)
+    return (len(lines) == 0 or (ih(tracked_lines, lines[1:], k + 1, skip, m, j)
+                                and ih(tracked_lines, lines[1:], k + 1, skip, skip_state(norm(lines[0]), m), j)
+                                and ih(tracked_lines, lines[1:], k + 1, skip, skip_state(norm(lines[0]), m), j - 1))) and \
+        tracked_elem_ok(lines, k, skip, m, j)
+
+
+def tracked_order_ok(lines, k, skip, m, j):
+    """Numbers are strictly increasing: order preserved, no line emitted twice."""
+    return implies(0 <= j and j + 1 < len(tracked(lines, k, skip, m)),
+                   tracked(lines, k, skip, m)[j][0] < tracked(lines, k, skip, m)[j + 1][0])
+
+
+@lemma(props=["C03"], types=dict(lines=SeqOf(Str), k=Int, skip=SeqOf(Int), m=Bool, j=Int), name="tracked-lines-keep-order")
+def tracked_order(lines, k, skip, m, j):
+    reveal(tracked, lines, k, skip, m)
+    return (len(lines) == 0 or (ih(tracked_order, lines[1:], k + 1, skip, m, j)
+                                and ih(tracked_order, lines[1:], k + 1, skip, skip_state(norm(lines[0]), m), j)
+                                and ih(tracked_order, lines[1:], k + 1, skip, skip_state(norm(lines[0]), m), j - 1)
+                                and use(tracked_lines, lines[1:], k + 1, skip, skip_state(norm(lines[0]), m), 0))) and \
+        tracked_order_ok(lines, k, skip, m, j)
 
 
 def tracking_property(content, skip, r, j):
-    lines = content.split("\n")
     return implies(0 <= j and j < len(r),
-                   1 <= r[j][0] and r[j][0] <= len(lines) and r[j][1] == norm(lines[r[j][0] - 1])
+                   1 <= r[j][0] and r[j][0] <= len(content.split("\n")) and r[j][1] == norm(content.split("\n")[r[j][0] - 1])
                    and len(r[j][1]) > 0 and r[j][0] not in skip
                    and implies(j + 1 < len(r), r[j][0] < r[j + 1][0]))
 
@@ -316,6 +325,7 @@ def py_line_tracking(content, skip, j):
     r = call(PA + "_tokenize_with_line_numbers", None, content, skip)
     use(tracking_fusion, content.split("\n"), 1, skip, False)
     use(tracked_lines, content.split("\n"), 1, skip, False, j)
+    use(tracked_order, content.split("\n"), 1, skip, False, j)
     return tracking_property(content, skip, r, j)
 
 
@@ -325,4 +335,5 @@ def ts_line_tracking(content, skip, j):
     r = call(TA + "_tokenize_with_line_numbers", None, content, skip)
     use(tracking_fusion, content.split("\n"), 1, skip, False)
     use(tracked_lines, content.split("\n"), 1, skip, False, j)
+    use(tracked_order, content.split("\n"), 1, skip, False, j)
     return tracking_property(content, skip, r, j)
